@@ -9,6 +9,7 @@ from fam_script import ScriptFamily
 from fam_error import ErrorFamily
 from fam_data import DataFamily, IsolationFamily
 from fam_timeout import TimeoutFamily
+from fam_ack import AckFamily
 
 FLOW = FlowFamily()
 ACTIONS = ActionsFamily()
@@ -20,6 +21,7 @@ ERROR = ErrorFamily()
 DATA = DataFamily()
 DATAISO = IsolationFamily()
 TIMEOUT = TimeoutFamily()
+ACK = AckFamily()
 
 QUIESCENT = ['cur-fifo', 'cur-chaos', 'cur-chaos-lifo', 'mt2-chaos', 'mt4-chaos', 'mt8']
 ALLSCHED = QUIESCENT + ['cur-inline', 'mt2-inline']
@@ -30,6 +32,14 @@ def part(name, family, quick, thorough, monitors=(), judge=False, props=None, **
 
 
 PROPS = {
+    'C09': {
+        'level': 'exploration',
+        'rule': 'distinct (model, ack rules, op script with tick spacings / redo / clear / actions, retry limit, interval, store) cases',
+        'parts': [
+            part('ack', ACK, 1200, 30000, judge=True, props=['C09'], chunk=80),
+            part('sqlite', ACK, 150, 3000, judge=True, props=['C09'], chunk=20, store='sqlite'),
+        ],
+    },
     'C19': {
         'level': 'exploration',
         'rule': 'distinct (rule set, placement on step or act, tick times relative to the limits, answer moment) cases on the virtual clock',
